@@ -883,6 +883,11 @@ impl MerkleTree {
                     instructions.push(instruction);
                 }
                 Either::Right(node) => {
+                    if !instructions.is_empty() {
+                        // An earlier root still has to be read, `bytes` is not relative to
+                        // this root yet.
+                        continue;
+                    }
                     if bytes == node.length {
                         return Ok(Either::Right(root));
                     }
@@ -995,6 +1000,11 @@ impl MerkleTree {
                     }
                 }
             }
+        }
+        if !instructions.is_empty() {
+            // The offset and length of the root are not known yet: the checks above have not
+            // been made and `bytes` is not relative to the root, so nothing can be decided.
+            return Ok(Either::Left(instructions));
         }
         let instructions_or_result = self.seek_trusted_tree(root, bytes, nodes)?;
         match instructions_or_result {
